@@ -20,7 +20,8 @@ Definition cbar (cp : R -> R) (Ta Tb : R) : R := (cp Ta + cp Tb) / 2.
 (* temperature along the pipe, x metres from the inlet; k = alpha Pi d / (c_p m) *)
 Definition cooling_profile (Text Tin k x : R) : R := Text + (Tin - Text) * exp (- (k * x)).
 
-(* documented outlet temperature of a flowing branch *)
+(* documented outlet temperature of a flowing branch; d_o is the OUTER diameter of the pipe (the surface that
+   exchanges heat with the surroundings; pit column DO), alpha the heat transfer coefficient per outer surface *)
 Definition spec_T_out (alpha L d_o cp m Text Tin TL Q : R) : R :=
   Text + (Tin - Text) * exp (- (alpha * L * PI * d_o / (cp * m))) + TL - Q / (cp * m).
 
